@@ -193,7 +193,7 @@ structure CI (cmp : K → K → Int) (h : IFib K V) (S : List Nat) (T : Nat) (ro
   tv : ∀ (d y : Nat), tbl[d]? = some (some y) → ∃ yn, findRoot y roots = some yn ∧ yn.degree = ((d : Nat) : Int)
 
 section
-variable (hc : LawfulCmp cmp) {h : IFib K V} {S : List Nat} {T : Nat}
+variable {h : IFib K V} {S : List Nat} {T : Nat}
 
 theorem CI.deg_lt (hT : ∀ d, fib (d + 2) ≤ S.length → d < T) {roots : List FN} {tbl : Array (Option Nat)}
     (ci : CI cmp h S T roots tbl) {f : FN} (hf : f ∈ roots) : 0 ≤ f.degree ∧ f.degree.toNat < T := by
@@ -245,7 +245,374 @@ theorem link_ci {roots : List FN} {tbl : Array (Option Nat)} (hS : S.Nodup) (ci 
       rw [findRoot_linkUnder_other _ _ _ _ hysu]
       exact findRoot_erase roots lo y yn hylo hyn
 
+
+/-- readable keys for all ids of the heap -/
+def Readable (h : IFib K V) (S : List Nat) : Prop := ∀ id, id ∈ S → ∃ k, kf h id = some k
+
+theorem CI.top_mem {roots : List FN} {tbl : Array (Option Nat)} (ci : CI cmp h S T roots tbl) {x : Nat}
+    (hx : x ∈ topIds roots) : x ∈ S := ci.perm.mem_iff.mp (topIds_sub roots x hx)
+
+theorem consInner_spec (hc : LawfulCmp cmp) (hS : S.Nodup) (rd : Readable h S) (hT : ∀ d, fib (d + 2) ≤ S.length → d < T) :
+    ∀ (fuel : Nat) (roots : List FN) (tbl : Array (Option Nat)) (x : Nat) (linked : Bool),
+    CI cmp h S T roots tbl → x ∈ topIds roots → roots.length < fuel →
+    ∃ roots' tbl' x' lk xn', consInner cmp h fuel roots tbl x linked = .ok (roots', tbl', x', lk) ∧
+      CI cmp h S T roots' tbl' ∧ findRoot x' roots' = some xn' ∧
+      (tbl'[xn'.degree.toNat]? = some none ∨ tbl'[xn'.degree.toNat]? = some (some x')) ∧
+      ((lk = linked ∧ roots' = roots ∧ tbl' = tbl ∧ x' = x) ∨ (lk = true ∧ roots'.length < roots.length))
+  | 0, _, _, _, _, _, _, hf => by omega
+  | fuel + 1, roots, tbl, x, linked, ci, hx, hf => by
+    obtain ⟨xn, hxn⟩ := (findRoot_some_iff roots x).mpr hx
+    obtain ⟨hd0, hdT⟩ := ci.deg_lt hT (findRoot_mem _ _ _ hxn)
+    simp only [consInner, hxn]
+    rw [if_neg (by omega)]
+    have hin : xn.degree.toNat < tbl.size := by rw [ci.tsize]; exact hdT
+    rw [Array.getElem?_eq_getElem hin]
+    cases hy : tbl[xn.degree.toNat] with
+    | none =>
+      simp only []
+      exact ⟨roots, tbl, x, linked, xn, rfl, ci, hxn, Or.inl (by rw [Array.getElem?_eq_getElem hin, hy]),
+        Or.inl ⟨rfl, rfl, rfl, rfl⟩⟩
+    | some y =>
+      simp only []
+      have hy' : tbl[xn.degree.toNat]? = some (some y) := by rw [Array.getElem?_eq_getElem hin, hy]
+      by_cases hyx : y = x
+      · rw [if_pos hyx]
+        exact ⟨roots, tbl, x, linked, xn, rfl, ci, hxn, Or.inr (by rw [hy', hyx]), Or.inl ⟨rfl, rfl, rfl, rfl⟩⟩
+      · rw [if_neg hyx]
+        obtain ⟨yn, hyn, hyd⟩ := ci.tv _ _ hy'
+        have hydeg : yn.degree = xn.degree := by rw [hyd]; omega
+        simp only [hyn]
+        have hytop : y ∈ topIds roots := (findRoot_some_iff roots y).mp ⟨yn, hyn⟩
+        obtain ⟨kx, hkx⟩ := rd x (ci.top_mem hx)
+        obtain ⟨ky, hky⟩ := rd y (ci.top_mem hytop)
+        rw [keyOf_of_kf hkx, keyOf_of_kf hky]
+        simp only []
+        by_cases hgt : 0 < cmp kx ky
+        · rw [if_pos hgt]
+          -- x goes under y
+          have hle : LeP cmp (kf h) y x := ⟨ky, kx, hky, hkx, hc.anti _ _ (by omega)⟩
+          have ci1 := link_ci hS ci hxn hyn (fun e => hyx e.symm) hydeg.symm (by omega) hle
+          rw [hydeg] at ci1
+          have hlen : (linkUnder xn y (eraseRoot x roots)).length + 1 = roots.length := by
+            rw [length_linkUnder]; exact length_eraseRoot _ _ _ hxn
+          have hy1 : y ∈ topIds (linkUnder xn y (eraseRoot x roots)) := by
+            rw [topIds_linkUnder]; exact topIds_eraseRoot _ _ _ hyx hytop
+          obtain ⟨r', t', x', lk, xn', he, ci', hf', ht', hor⟩ :=
+            consInner_spec hc hS rd hT fuel _ _ y true ci1 hy1 (by omega)
+          refine ⟨r', t', x', lk, xn', he, ci', hf', ht', Or.inr ?_⟩
+          rcases hor with ⟨h1, h2, _, _⟩ | ⟨h1, h2⟩
+          · exact ⟨h1, by rw [h2]; omega⟩
+          · exact ⟨h1, by omega⟩
+        · rw [if_neg hgt]
+          -- y goes under x
+          have hle : LeP cmp (kf h) x y := ⟨kx, ky, hkx, hky, by omega⟩
+          have ci1 := link_ci hS ci hyn hxn hyx hydeg hd0 hle
+          have hlen : (linkUnder yn x (eraseRoot y roots)).length + 1 = roots.length := by
+            rw [length_linkUnder]; exact length_eraseRoot _ _ _ hyn
+          have hx1 : x ∈ topIds (linkUnder yn x (eraseRoot y roots)) := by
+            rw [topIds_linkUnder]; exact topIds_eraseRoot _ _ _ (fun e => hyx e.symm) hx
+          obtain ⟨r', t', x', lk, xn', he, ci', hf', ht', hor⟩ :=
+            consInner_spec hc hS rd hT fuel _ _ x true ci1 hx1 (by omega)
+          refine ⟨r', t', x', lk, xn', he, ci', hf', ht', Or.inr ?_⟩
+          rcases hor with ⟨h1, h2, _, _⟩ | ⟨h1, h2⟩
+          · exact ⟨h1, by rw [h2]; omega⟩
+          · exact ⟨h1, by omega⟩
+
+
+theorem mul_step {a b : Nat} (h : a + 1 ≤ b) : a * (a + 1) + a + 1 ≤ b * (b + 1) := by
+  have h1 : (a + 1) * (a + 2) ≤ b * (b + 1) := Nat.mul_le_mul h (by omega)
+  have h2 : (a + 1) * (a + 2) = a * (a + 1) + a + a + 2 := by
+    simp only [Nat.add_mul, Nat.mul_add, Nat.mul_one, Nat.one_mul]; omega
+  omega
+
+/-- `roots[x.degree] = x` -/
+theorem ci_record {roots : List FN} {tbl : Array (Option Nat)} (ci : CI cmp h S T roots tbl) {x : Nat} {xn : FN}
+    (hx : findRoot x roots = some xn) (hd0 : 0 ≤ xn.degree) :
+    CI cmp h S T roots (tbl.setIfInBounds xn.degree.toNat (some x)) := by
+  refine ⟨ci.perm, ci.ok, ci.ho, by simp [ci.tsize], ?_⟩
+  intro d y hy
+  rw [Array.getElem?_setIfInBounds] at hy
+  split at hy
+  · rename_i hd
+    split at hy
+    · cases hy; exact ⟨xn, hx, by omega⟩
+    · cases hy
+  · exact ci.tv d y hy
+
+theorem head_ne {V R' : List FN} {cn r1 : FN} {stop : Nat}
+    (hnd : (topIds (V ++ cn :: r1 :: R')).Nodup) (hhead : (V ++ [cn]).head?.map (·.id) = some stop) :
+    r1.id ≠ stop := by
+  intro e
+  cases V with
+  | nil =>
+    simp only [List.nil_append, List.head?_cons, Option.map_some, Option.some.injEq] at hhead
+    simp only [topIds, List.nil_append, List.map_cons, List.nodup_cons, List.mem_cons] at hnd
+    exact hnd.1 (Or.inl (by rw [hhead, e]))
+  | cons v0 V' =>
+    simp only [List.cons_append, List.head?_cons, Option.map_some, Option.some.injEq] at hhead
+    simp only [topIds, List.cons_append, List.map_cons, List.map_append, List.nodup_cons, List.mem_append,
+      List.mem_cons] at hnd
+    exact hnd.1 (Or.inr (Or.inr (Or.inl (by rw [hhead, e]))))
+
+theorem consOuter_spec (hc : LawfulCmp cmp) (hS : S.Nodup) (rd : Readable h S)
+    (hT : ∀ d, fib (d + 2) ≤ S.length → d < T) :
+    ∀ (fuel : Nat) (roots : List FN) (tbl : Array (Option Nat)) (stop curr : Nat) (P Q V R : List FN) (cn : FN),
+    CI cmp h S T roots tbl → roots = P ++ Q → Q ++ P = V ++ cn :: R → cn.id = curr →
+    ((V ++ [cn]).head?.map (·.id) = some stop) →
+    (∀ v, v ∈ V → tbl[v.degree.toNat]? = some (some v.id)) →
+    roots.length * (roots.length + 1) + R.length < fuel →
+    ∃ roots' tbl', consOuter cmp h fuel roots tbl stop curr = .ok (roots', tbl') ∧ CI cmp h S T roots' tbl' ∧
+      roots' ≠ [] ∧ ∀ f, f ∈ roots' → tbl'[f.degree.toNat]? = some (some f.id)
+  | 0, _, _, _, _, _, _, _, _, _, _, _, _, _, _, _, hf => by omega
+  | fuel + 1, roots, tbl, stop, curr, P, Q, V, R, cn, ci, hr, hrot, hcn, hhead, hrec, hf => by
+    have hndS : (rootsIds roots).Nodup := ci.perm.nodup_iff.mpr hS
+    have hnd : (topIds roots).Nodup := nodup_topIds roots hndS
+    have hpermrot : (Q ++ P).Perm roots := by rw [hr]; exact List.perm_append_comm
+    have hndrot : (topIds (V ++ cn :: R)).Nodup := by
+      rw [← hrot]; exact (List.Perm.map _ hpermrot).nodup_iff.mpr hnd
+    have hcnmem : cn ∈ roots := hpermrot.mem_iff.mp (by rw [hrot]; simp)
+    have hcurr : curr ∈ topIds roots := by rw [← hcn]; exact List.mem_map.mpr ⟨cn, hcnmem, rfl⟩
+    obtain ⟨r', t', x', lk, xn', he, ci', hf', ht', hor⟩ :=
+      consInner_spec hc hS rd hT (roots.length + 1) roots tbl curr false ci hcurr (by omega)
+    simp only [consOuter, he]
+    obtain ⟨hd0, hdT⟩ := ci'.deg_lt hT (findRoot_mem _ _ _ hf')
+    simp only [hf']
+    rw [if_neg (by rw [ci'.tsize]; omega)]
+    have ci2 := ci_record ci' hf' hd0
+    rcases hor with ⟨hlk, hr', ht'', hx'⟩ | ⟨hlk, hlen⟩
+    · -- no link: the scan advances
+      subst hlk; subst hr'; subst ht''
+      rw [hx'] at he hf' ht' ci2 ⊢
+      clear hx'
+      have hxn : xn' = cn := by
+        have := findRoot_of_mem r' hnd cn hcnmem
+        rw [hcn] at this
+        exact findRoot_functional hf' this
+      subst hxn
+      simp only [Bool.false_eq_true, if_false]
+      have hnext := nextOf_rot hnd hr hrot
+      rw [hcn] at hnext
+      rw [hnext]
+      -- entries recorded for V are not overwritten
+      have hrec2 : ∀ v, v ∈ V ++ [xn'] →
+          (t'.setIfInBounds xn'.degree.toNat (some curr))[v.degree.toNat]? = some (some v.id) := by
+        intro v hv
+        have hin : xn'.degree.toNat < t'.size := by rw [ci'.tsize]; exact hdT
+        rcases List.mem_append.mp hv with hv | hv
+        · rw [Array.getElem?_setIfInBounds]
+          have hne : xn'.degree.toNat ≠ v.degree.toNat := by
+            intro e
+            have h1 := hrec v hv
+            rw [← e] at h1
+            have hvid : v.id ≠ xn'.id := by
+              intro e2
+              simp only [topIds, List.map_append, List.map_cons] at hndrot
+              exact (List.nodup_append.mp hndrot).2.2 v.id (List.mem_map.mpr ⟨v, hv, rfl⟩) xn'.id
+                List.mem_cons_self e2
+            rcases ht' with h2 | h2
+            · rw [h1] at h2; cases h2
+            · rw [h1] at h2
+              have : v.id = curr := Option.some.inj (Option.some.inj h2)
+              exact hvid (this.trans hcn.symm)
+          rw [if_neg hne]; exact hrec v hv
+        · simp only [List.mem_singleton] at hv
+          subst hv
+          rw [Array.getElem?_setIfInBounds, if_pos rfl, if_pos hin, hcn]
+      cases R with
+      | nil =>
+        simp only [List.nil_append, hhead, Option.map_some, if_true]
+        refine ⟨_, _, rfl, ci2, ?_, ?_⟩
+        · intro e; rw [e] at hcnmem; cases hcnmem
+        · intro f hf
+          apply hrec2
+          have := hpermrot.mem_iff.mpr hf
+          rw [hrot] at this
+          simpa using this
+      | cons r1 R' =>
+        simp only [List.cons_append, List.head?_cons, Option.map_some]
+        have hr1 : r1.id ≠ stop := head_ne hndrot hhead
+        rw [if_neg hr1]
+        refine consOuter_spec hc hS rd hT fuel r' _ stop r1.id P Q (V ++ [xn']) R' r1 ci2 hr
+          (by rw [hrot]; simp) rfl ?_ hrec2 (by simp only [List.length_cons] at hf; omega)
+        rw [← hhead]
+        cases V <;> simp
+    · -- a link happened: restart the scan at x'
+      subst hlk
+      simp only [if_true]
+      obtain ⟨A, B, hl, hA, hid⟩ := findRoot_split _ _ _ hf'
+      have hndS' : (rootsIds r').Nodup := ci'.perm.nodup_iff.mpr hS
+      have hnd' : (topIds r').Nodup := nodup_topIds r' hndS'
+      have hrot' : (xn' :: B) ++ A = [] ++ xn' :: (B ++ A) := by simp
+      have hnext := nextOf_rot hnd' hl hrot'
+      rw [hid] at hnext
+      rw [hnext]
+      have hin : xn'.degree.toNat < t'.size := by rw [ci'.tsize]; exact hdT
+      have hrecx : (t'.setIfInBounds xn'.degree.toNat (some x'))[xn'.degree.toNat]? = some (some xn'.id) := by
+        rw [Array.getElem?_setIfInBounds, if_pos rfl, if_pos hin, hid]
+      cases hBA : B ++ A with
+      | nil =>
+        simp only [List.nil_append, List.head?_cons, Option.map_some, hid, if_true]
+        refine ⟨_, _, rfl, ci2, by rw [hl]; simp, ?_⟩
+        intro f hf
+        have hB : B = [] := (List.append_eq_nil_iff.mp hBA).1
+        have hA' : A = [] := (List.append_eq_nil_iff.mp hBA).2
+        rw [hl, hA', hB] at hf
+        simp only [List.nil_append, List.mem_singleton] at hf
+        subst hf
+        exact hrecx
+      | cons r1 R' =>
+        simp only [List.cons_append, List.head?_cons, Option.map_some]
+        have hr1 : r1.id ≠ x' := by
+          intro e
+          have hperm : (xn' :: (B ++ A)).Perm r' := by
+            rw [hl]
+            exact ((List.perm_middle (l₁ := A) (a := xn') (l₂ := B)).trans
+              (List.Perm.cons _ List.perm_append_comm)).symm
+          have hnd2 : (topIds (xn' :: (B ++ A))).Nodup := (List.Perm.map _ hperm).nodup_iff.mpr hnd'
+          rw [hBA] at hnd2
+          simp only [topIds, List.map_cons, List.nodup_cons, List.mem_cons] at hnd2
+          exact hnd2.1 (Or.inl (by rw [hid, e]))
+        rw [if_neg hr1]
+        have hlenR : R'.length + 2 = r'.length := by
+          rw [hl]
+          have := congrArg List.length hBA
+          simp only [List.length_append, List.length_cons] at this ⊢
+          omega
+        have hms := mul_step (a := r'.length) (b := roots.length) (by omega)
+        refine consOuter_spec hc hS rd hT fuel r' _ x' r1.id A (xn' :: B) [xn'] R' r1 ci2 hl
+          (by simp [hBA]) rfl (by simp [hid]) ?_ (by omega)
+        intro v hv
+        simp only [List.mem_singleton] at hv
+        subst hv
+        exact hrecx
+
+
+theorem pickLoop_spec (hc : LawfulCmp cmp) (rd : Readable h S) : ∀ (l : List (Option Nat)) (e : Nat), e ∈ S →
+    (∀ r, some r ∈ l → r ∈ S) →
+    ∃ x, pickLoop cmp h e l = .ok x ∧ (x = e ∨ some x ∈ l) ∧ LeP cmp (kf h) x e ∧
+      ∀ r, some r ∈ l → LeP cmp (kf h) x r
+  | [], e, he, _ => by
+    obtain ⟨k, hk⟩ := rd e he
+    exact ⟨e, rfl, Or.inl rfl, LeP.refl hc hk, fun r hr => by cases hr⟩
+  | none :: rest, e, he, hl => by
+    obtain ⟨x, h1, h2, h3, h4⟩ := pickLoop_spec hc rd rest e he (fun r hr => hl r (List.mem_cons_of_mem _ hr))
+    refine ⟨x, by simpa only [pickLoop] using h1, ?_, h3, ?_⟩
+    · rcases h2 with h2 | h2
+      · exact Or.inl h2
+      · exact Or.inr (List.mem_cons_of_mem _ h2)
+    · intro r hr
+      rcases List.mem_cons.mp hr with hr | hr
+      · cases hr
+      · exact h4 r hr
+  | some r0 :: rest, e, he, hl => by
+    have hr0 : r0 ∈ S := hl r0 List.mem_cons_self
+    obtain ⟨ke, hke⟩ := rd e he
+    obtain ⟨kr, hkr⟩ := rd r0 hr0
+    simp only [pickLoop, keyOf_of_kf hke, keyOf_of_kf hkr]
+    by_cases hle : cmp ke kr ≤ 0
+    · rw [if_pos hle]
+      obtain ⟨x, h1, h2, h3, h4⟩ := pickLoop_spec hc rd rest e he (fun r hr => hl r (List.mem_cons_of_mem _ hr))
+      refine ⟨x, h1, ?_, h3, ?_⟩
+      · rcases h2 with h2 | h2
+        · exact Or.inl h2
+        · exact Or.inr (List.mem_cons_of_mem _ h2)
+      · intro r hr
+        rcases List.mem_cons.mp hr with hr | hr
+        · cases hr
+          exact LeP.trans hc h3 ⟨ke, kr, hke, hkr, hle⟩
+        · exact h4 r hr
+    · rw [if_neg hle]
+      obtain ⟨x, h1, h2, h3, h4⟩ := pickLoop_spec hc rd rest r0 hr0 (fun r hr => hl r (List.mem_cons_of_mem _ hr))
+      have hre : LeP cmp (kf h) r0 e := ⟨kr, ke, hkr, hke, hc.anti _ _ (by omega)⟩
+      refine ⟨x, h1, ?_, LeP.trans hc h3 hre, ?_⟩
+      · rcases h2 with h2 | h2
+        · rw [h2]; exact Or.inr List.mem_cons_self
+        · exact Or.inr (List.mem_cons_of_mem _ h2)
+      · intro r hr
+        rcases List.mem_cons.mp hr with hr | hr
+        · cases hr; exact h3
+        · exact h4 r hr
+
+theorem mem_toList_iff (tbl : Array (Option Nat)) (r : Nat) :
+    some r ∈ tbl.toList ↔ ∃ d : Nat, tbl[d]? = some (some r) := by
+  rw [List.mem_iff_getElem?]
+  simp
+
 end
+
+/-- `consolidate` returns; shape, heap order and the set of ids are kept, and the new entry root is before
+every node -/
+theorem consolidate_full (hc : LawfulCmp cmp) {h : IFib K V} (hne : h.roots ≠ [])
+    (hS : (rootsIds h.roots).Nodup) (rd : Readable h (rootsIds h.roots))
+    (hn : h.n = ((rootsIds h.roots).length : Int)) (hok : ∀ f, f ∈ h.roots → f.OK)
+    (ho : HO cmp (kf h) h.roots) :
+    ∃ h', consolidate cmp h = .ok h' ∧ (rootsIds h'.roots).Perm (rootsIds h.roots) ∧ h'.nodes = h.nodes ∧
+      h'.cells = h.cells ∧ h'.n = h.n ∧ (∀ f, f ∈ h'.roots → f.OK) ∧ HO cmp (kf h') h'.roots ∧
+      ExtAll cmp (kf h') h'.roots := by
+  cases hroots : h.roots with
+  | nil => exact absurd hroots hne
+  | cons e rest =>
+    have hlen1 : 1 ≤ (rootsIds h.roots).length := by
+      rw [hroots, rootsIds_cons, List.length_append]; simp [FN.ids]; omega
+    have hmax : fibMaxDegree h.n = .ok (logPhi (rootsIds h.roots).length + 1) := by
+      unfold fibMaxDegree; rw [hn, if_neg (by omega)]; simp
+    have hT : ∀ d, fib (d + 2) ≤ (rootsIds h.roots).length → d < logPhi (rootsIds h.roots).length + 1 :=
+      fun d hd => degree_lt_maxDegree hd
+    have ci0 : CI cmp h (rootsIds h.roots) (logPhi (rootsIds h.roots).length + 1) h.roots
+        (Array.replicate (logPhi (rootsIds h.roots).length + 1) none) := by
+      refine ⟨List.Perm.refl _, hok, ho, by simp, ?_⟩
+      intro d y hy
+      rw [Array.getElem?_replicate] at hy
+      split at hy <;> cases hy
+    have hfuel : h.roots.length * (h.roots.length + 1) + rest.length <
+        (h.roots.length + 1) * (h.roots.length + 1) + 1 := by
+      have : rest.length + 1 = h.roots.length := by rw [hroots]; simp
+      have e1 : (h.roots.length + 1) * (h.roots.length + 1) = h.roots.length * (h.roots.length + 1) + h.roots.length + 1 := by
+        simp only [Nat.add_mul, Nat.mul_add, Nat.mul_one, Nat.one_mul]; omega
+      omega
+    obtain ⟨roots', tbl', hout, ci', hne', hcomplete⟩ :=
+      consOuter_spec hc hS rd hT _ h.roots _ e.id e.id [] h.roots [] rest e ci0 (by simp) (by simp [hroots]) rfl
+        (by simp) (fun v hv => by cases hv) hfuel
+    unfold consolidate
+    rw [hmax]
+    simp only [hroots]
+    rw [hroots] at hout
+    rw [hout]
+    cases hr' : roots' with
+    | nil => exact absurd hr' hne'
+    | cons e' rest' =>
+      simp only []
+      have he'top : e'.id ∈ topIds roots' := by rw [hr']; simp [topIds]
+      have hvalid : ∀ r, some r ∈ tbl'.toList → r ∈ topIds roots' := by
+        intro r hr
+        obtain ⟨d, hd⟩ := (mem_toList_iff tbl' r).mp hr
+        obtain ⟨yn, hyn, _⟩ := ci'.tv d r hd
+        exact (findRoot_some_iff roots' r).mp ⟨yn, hyn⟩
+      obtain ⟨x, hpick, hxmem, hxe, hxall⟩ := pickLoop_spec hc rd tbl'.toList e'.id (ci'.top_mem he'top)
+        (fun r hr => ci'.top_mem (hvalid r hr))
+      rw [hpick]
+      simp only []
+      have hxtop : x ∈ topIds roots' := by
+        rcases hxmem with rfl | hxmem
+        · exact he'top
+        · exact hvalid x hxmem
+      obtain ⟨roots'', hrot, hperm, e'', hhead, hid⟩ := rotateTo_spec roots' x hxtop
+      rw [← hr', hrot]
+      refine ⟨_, rfl, by rw [← hroots]; exact (rootsIds_perm hperm).trans ci'.perm, rfl, rfl, rfl, ?_,
+        ho_perm hperm ci'.ho, ?_⟩
+      · intro f hf; exact ci'.ok f (hperm.mem_iff.mp hf)
+      · intro e0 he0 y hy
+        show LeP cmp (kf h) e0.id y
+        rw [show (roots'' : List FN).head? = some e'' from hhead] at he0
+        cases he0
+        rw [hid]
+        have hy' : y ∈ rootsIds roots' := (rootsIds_perm hperm).mem_iff.mp hy
+        obtain ⟨ρ, hρ, hle⟩ := ho_root hc ci'.ho
+          (fun z hz => rd z (ci'.perm.mem_iff.mp hz)) y hy'
+        obtain ⟨f, hf, hfid⟩ := List.mem_map.mp hρ
+        have hin := hcomplete f hf
+        have : some ρ ∈ tbl'.toList := (mem_toList_iff tbl' ρ).mpr ⟨_, by rw [← hfid]; exact hin⟩
+        exact LeP.trans hc (hxall ρ this) hle
 
 end IFib
 end AlgoVerif.C05
